@@ -84,7 +84,7 @@ fn heap_worker(ctx: &WorkerCtx, footprint: bool) -> Report {
     // register/spill boundary (x86-64: 5, AArch64: 12; RV64 has no spills: 6)
     // alphabet 0 = lists/boxes/closures, 1 = rich, 2 = records (two-block objects, no nesting)
     let configs: Vec<(usize, usize, u8, bool)> = if ctx.tier.thorough() {
-        vec![(2, 3, 0, false), (3, 2, 0, false), (2, 3, 0, true), (4, 3, 2, false), (4, 3, 2, true), (3, 2, 0, true), (2, 4, 0, false), (2, 3, 1, false), (3, 3, 0, false), (4, 2, 0, false), (2, 4, 0, true), (5, 4, 2, true)]
+        vec![(2, 3, 0, false), (3, 2, 0, false), (2, 3, 0, true), (4, 3, 2, false), (4, 3, 2, true), (3, 2, 0, true), (2, 4, 0, false), (2, 3, 1, false), (3, 3, 0, false), (4, 2, 0, false), (2, 4, 0, true), (5, 4, 2, true), (4, 3, 3, false), (4, 4, 3, false), (4, 4, 3, true)]
     } else {
         vec![(2, 3, 0, false), (3, 2, 0, false), (2, 3, 0, true), (4, 2, 2, false), (4, 2, 2, true)]
     };
@@ -180,6 +180,65 @@ fn heap_worker(ctx: &WorkerCtx, footprint: bool) -> Report {
                     }
                 }
             }
+            // the same for Fun loops compiled by the whole pipeline (end to end: a missing release
+            // anywhere between the source and the emitted code makes the footprint grow)
+            for arch in archs {
+                let info = arch_info(arch);
+                for (shape, sname) in crate::generate::funfam::FUN_LOOP_SHAPES.iter().enumerate() {
+                    idx += 1;
+                    if !sub.mine(idx) {
+                        continue;
+                    }
+                    let src = crate::generate::funfam::fun_loop_source(shape);
+                    let st = match crate::pipeline::all_stages(&src) {
+                        Ok(st) => st,
+                        Err(e) => {
+                            rep.machinery(format!("Fun loop {sname} does not compile: {e:?}"));
+                            continue;
+                        }
+                    };
+                    let mut frontiers = Vec::new();
+                    let mut exhausted = false;
+                    for n in [base, 4 * base, 16 * base] {
+                        let case = crate::generate::axfam::AxCase { name: format!("funloop/{sname}/n{n}"), prog: st.linear.clone(), args: vec![n], uses_print: false };
+                        // reference: the by-name machine on the shrunk program (independent of the linearizer)
+                        let reference = crate::sem::ax::run_named(&st.shrunk, 0, &[n], 400_000);
+                        let r = codegen::run_case_opts(&case, arch, &info, true, false, Some(reference));
+                        rep.count("cases", 1);
+                        rep.count("states", r.boundaries);
+                        rep.count("transitions", r.ref_steps);
+                        rep.distinct.push(hash64(&(arch.name(), sname, n)));
+                        match (&r.verdict, r.heap) {
+                            (crate::exec::Verdict::Match, Some(h)) => {
+                                rep.count("traces_validated_against_impl", 1);
+                                frontiers.push((n, h.1, h.0));
+                            }
+                            (crate::exec::Verdict::Violation(m), h) => {
+                                if matches!(r.fault, Some(crate::emu::Fault::HeapExhausted)) {
+                                    exhausted = true;
+                                    frontiers.push((n, usize::MAX, h.map(|x| x.0).unwrap_or(0)));
+                                } else {
+                                    rep.violation(format!("{}/funloop/{sname}/run", arch.name()), m.clone(), serde_json::json!({"kind": "funloop", "arch": arch.name(), "shape": shape, "n": n, "source": src}));
+                                }
+                            }
+                            (crate::exec::Verdict::Machinery(m), _) => rep.machinery(m.clone()),
+                            _ => {}
+                        }
+                    }
+                    if frontiers.len() == 3 {
+                        rep.sample(serde_json::json!({"arch": arch.name(), "fun_loop": sname, "iterations_frontier_peak": frontiers.iter().map(|(n, f, p)| (n, if *f == usize::MAX { -1 } else { *f as i64 }, p)).collect::<Vec<_>>()}));
+                        let f0 = frontiers[0].1;
+                        if exhausted || frontiers.iter().any(|(_, f, _)| *f != f0) {
+                            rep.violation(
+                                format!("{}/funloop/{sname}/grows", arch.name()),
+                                format!("heap footprint of a compiled Fun loop depends on the number of iterations: (n, frontier blocks (MAX = heap exhausted), peak live) = {frontiers:?}"),
+                                serde_json::json!({"kind": "funloop", "arch": arch.name(), "shape": shape, "base": base, "source": src}),
+                            );
+                        }
+                        rep.outcomes.insert(format!("funloop/{sname}/frontier={f0}"));
+                    }
+                }
+            }
         }
     }
     rep
@@ -192,7 +251,7 @@ fn heap_meta(property: &'static str) -> CheckMeta {
         rule: if property == "C09" {
             "two explorations: (A) every statement boundary of every emulated execution of the linear AxCut families on all three backends is a checked state (heap partition, exact reference counts, memory safety); (B) breadth-first search over histories of heap operations (literal, let of 0/1/2/3/4 fields, dup, drop, move, switch, create, invoke) from the post-prologue state, each transition being the real generated code for one statement run on the emulator, with canonical-state deduplication (block addresses renamed in discovery order, dead data scrubbed to undefined); the invariant, agreement of integers/tags with a reference value model and the footprint bound are evaluated in every state. A state is distinct by its canonical form.".into()
         } else {
-            "(mechanism) the same breadth-first search as C09(B) with (peak reachable blocks) carried in the state: blocks below the allocation frontier <= peak + 2 in every reachable state, to a fixpoint under a live-data bound, i.e. for histories of any length; (programs) build-and-drop loops of six shapes on all three backends at n, 4n, 16n iterations: the frontier must be identical for the three n.".into()
+            "(mechanism) the same breadth-first search as C09(B) with (peak reachable blocks) carried in the state: blocks below the allocation frontier <= peak + 2 in every reachable state, to a fixpoint under a live-data bound, i.e. for histories of any length; (programs) build-and-drop loops of six shapes (hand-built linear AxCut) and of ten shapes written in Fun and compiled by the whole pipeline, on all three backends at n, 4n, 16n iterations: the frontier must be identical for the three n.".into()
         },
         assumptions: vec![
             "block geometry (fields per block, offsets, heap/free registers, temporaries) is taken from the backend crates at run time".into(),
@@ -315,7 +374,7 @@ pub fn run_check(id: &str, tier: Tier) -> i32 {
             let meta = CheckMeta {
                 property: "C17",
                 level: "model_checking",
-                rule: "three owned sources of nondeterminism, each enumerated exhaustively within its bound. History: for every sequence of <= 2 (quick) / <= 3 (thorough) earlier compilations over an 8-program alphabet, run in a fresh child process, the target (each of the 8) is compiled afterwards and every printable stage (Core, focused, shrunk, linearized, three assemblies) is compared with the fresh-process result after renumbering generated label suffixes in order of first occurrence. Hash seeds: an LD_PRELOAD shim makes getrandom() a function of VERIF_HASH_SEED; for seeds 0..15 (quick) / 0..255 (thorough) x a corpus (repository examples, testsuite programs, the history programs, a program with ten type instances) fresh processes must produce byte-identical output for every stage. Environment: the real scc subcommands compile/focus/shrink/linearize/codegen under 7 environments (cleared environment, TERM, COLUMNS, NO_COLOR, LANG/LC_ALL, another working directory): the text files written must be byte-identical. States = (history | seed | environment, stage) pairs; transitions = compilations.".into(),
+                rule: "three owned sources of nondeterminism, each enumerated exhaustively within its bound. History: for every sequence of <= 2 (quick) / <= 3 (thorough) earlier compilations over a 12-program alphabet (8 programs over a common prelude and 4 conflicting namesakes: same type, constructor, destructor and definition names with different order, arity or meaning), run in a fresh child process, the target (each of the 12) is compiled afterwards and every printable stage (Core, focused, shrunk, linearized, three assemblies) is compared with the fresh-process result after renumbering generated label suffixes in order of first occurrence. Hash seeds: an LD_PRELOAD shim makes getrandom() a function of VERIF_HASH_SEED; for seeds 0..15 (quick) / 0..255 (thorough) x a corpus (repository examples, testsuite programs, the history programs, a program with ten type instances) fresh processes must produce byte-identical output for every stage. Environment: the real scc subcommands compile/focus/shrink/linearize/codegen under 7 environments (cleared environment, TERM, COLUMNS, NO_COLOR, LANG/LC_ALL, another working directory): the text files written must be byte-identical. States = (history | seed | environment, stage) pairs; transitions = compilations.".into(),
                 assumptions: vec!["Rust's std obtains its hash keys through the libc getrandom symbol (the shim's effect is visible: before the instance-order fix different seeds gave different outputs)".into()],
             };
             finish(&meta, tier, started, rep, Map::new())
